@@ -1,6 +1,9 @@
 """C14 — body tracing reconstructs the exact message sequence and never alters the data."""
 import itertools
+import os
 import struct
+import zlib
+from .. import core
 from ..core import Prop
 
 # (plain, compressed) pairs produced once by the repository's own compressors
@@ -216,13 +219,30 @@ def headers_for(rng, want_stream=True):
     return [ct, cenc, other, enc]
 
 
+def pat(n, seed):
+    """the pattern both sides expand from (length, seed): C14_Model.pat_bytes / verifC14PatBytes"""
+    return bytes(((seed & 255) + 13 * (i & 255) + ((i >> 8) & 255)) & 255 for i in range(n))
+
+
+def gzip_bytes(data, level):
+    """a gzip stream (any valid one will do: what is under test is the DEcompressor); level 0 = stored blocks,
+    so the compressed form is longer than the plain one"""
+    c = zlib.compressobj(level, zlib.DEFLATED, 31)
+    return c.compress(data) + c.flush()
+
+
+K64 = 65536
+
+
 class C14(Prop):
     id = "C14"
     props = "C14_Props"
-    coq_files = ("Base", "C14_Http", "C14_Model", "C14_Spec", "C14_Proofs", "C14_Alias", "C14_HttpProofs", "C14_Props")
+    coq_files = ("Base", "C14_Http", "C14_Server", "C14_Model", "C14_Spec", "C14_Proofs", "C14_Alias", "C14_HttpProofs",
+                 "C14_ServerProofs", "C14_Props")
     models = ("C14_Model",)
-    packages = {"tr": "internal/tracer"}
-    kinds = {"c14.raw": "tr", "c14.reader": "tr", "c14.writer": "tr", "c14.props": "tr", "c14.rt": "tr", "c14.handler": "tr"}
+    packages = {"tr": "internal/tracer", "rs": "internal/app/referenceserver"}
+    kinds = {"c14.raw": "tr", "c14.reader": "tr", "c14.writer": "tr", "c14.props": "tr", "c14.rt": "tr", "c14.handler": "tr",
+             "c14.long": "tr", "c14.observed": "tr", "c14.server": "rs", "c14.probe": "rs"}
     rule = ("envelope sequences (0-5 messages; flags from {0,1,2,3,0x80,0x81,0x82,0xff,...} and random 0..255; lengths 0,1,..6 and random <= 600; "
             "end-stream messages for Connect (0x02) and gRPC-Web (0x80), flagged compressed or not, payload = output of the repository's own "
             "compressor for the negotiated encoding / plain text / refused garbage / empty; negotiated encoding identity, the five named ones, "
@@ -248,14 +268,30 @@ class C14(Prop):
             "messages cut at every position (all single cuts, all pairs with the first in the prefix) x 6 encodings x 5 flag/payload variants, every "
             "1/2/3-cut of a body full of zero-length messages, truncation at every byte x (one chunk, byte-wise, every single cut), through every entry point. "
             "Compared: event list (kind, side, index, flags, declared length, byte count, end-stream content, body-end error class) "
-            "and the bytes/counts/errors the wrapper's caller got. non-trivial = at least one data event")
+            "and the bytes/counts/errors the wrapper's caller got. non-trivial = at least one data event. "
+            "Glue around the cores (third wave): c14.long - end-stream messages of 64 KiB - 1, 64 KiB, 64 KiB + 1, 100 KiB and 1 MiB from a compact "
+            "description (length, seed) expanded identically on both sides, uncompressed / flagged under the identity decompressor / gzip stored "
+            "(capture longer than 64 KiB) / gzip deflated (short capture, long content) / refused / request side, cut in the prefixes, at the payload "
+            "start, around the 64 KiB mark, into 32 and 64 KiB reads, through raw, reader, writer, rt and handler (long byte strings compared by length, "
+            "two checksums, first and last 16 bytes); c14.server - the REAL createServer in reference mode with a tracer.Tracer on loopback, HTTP/1.1 and "
+            "h2c, asked by a plain net/http client through a unary RPC, a server stream and a gRPC-Web server stream for a raw response (0-3 enveloped "
+            "messages incl. zero-length, end-stream or not, declared length differing from the payload's, compressed end-stream, unary bodies, status 0 / "
+            "200 / 404 / 418 / 500): status and body on the wire, status and response events of the awaited trace, against the model of createServer's "
+            "handler chain; c14.probe -> c14.observed - ordinary responses (data, error, several messages; Connect unary / stream, gRPC-Web), the model "
+            "run on the bytes the plain client received; c14.rt with a response that has no body - the transport returns http.NoBody or an empty reader, "
+            "and real exchanges over loopback answered with Content-Length: 0, 204, 304, to HEAD (and with bodies of known / unknown length): one "
+            "body-end event, the trace completed exactly once (bounded wait of 2 s)")
     trusted_base = ("Coq 8.16.1 kernel", "extraction (ExtrOcamlBasic only) + ocaml/driver.ml",
                     "vlib generators/comparator, Go overlay harness (scripted inner reader / response writer, recording Collector, re-used caller array "
                     "with private image)",
                     "modelled not verified: the decompressors (a Section variable in the theorems; a table of compress->plain pairs made by the "
                     "repository's compressors when the model is run), net/http itself (the plumbing of TracingRoundTripper/TracingHandler around it is "
                     "modelled at the level of header-map references in C14_Http; client-side newBuilder's httptrace hook is not), "
-                    "sync.Mutex / atomic.Bool (single goroutine per body)")
+                    "sync.Mutex / atomic.Bool (single goroutine per body)",
+                    "the order of createServer's handler chain is a nest of closures, not a value the compiled code can print: the model's "
+                    "create_server_chain is tied to it only by the c14.server / c14.observed exchanges with the real server; the layers other than "
+                    "rawResponder and the tracer are modelled as passing the response body through",
+                    "long bodies (c14.long) are compared by projection: length, sum and sum-of-running-sums mod 2^32, first and last 16 bytes")
     assumptions = ("one goroutine reads or writes a given body at a time (the mutex is not modelled)",
                    "value semantics: the model's tracer state holds copies of the bytes it keeps; the Go code implements that only by copying out of "
                    "the caller's slice (io.Reader/io.Writer: p must not be retained) - made explicit in C14_Alias (caller's memory, prefix as own storage "
@@ -275,12 +311,20 @@ class C14(Prop):
                   "method, ContentLength and header contents, no earlier map is written to and the trace reports the synthesised Content-Length in "
                   "a map of its own (handler_sees_same_request; the non-cloning variant is refuted), and behind TracingRoundTripper the application "
                   "gets the status, ContentLength, headers and trailers of the untraced call for every transport that answers by content "
-                  "(client_sees_same_response); the model is tied to the Go code "
-                  "by a bounded-exhaustive plus random differential run on every check.")
+                  "(client_sees_same_response); the end-stream content event carries the WHOLE payload (or the whole output of the decompressor "
+                  "run on the whole payload) for every length (end_stream_content_exact); with the handler chain as createServer installs it - "
+                  "tracing outside rawResponder - the tracing layer records exactly the response that leaves the server, raw or ordinary "
+                  "(trace_sees_wire_bytes, tracing_outside_sees_wire, raw_response_reaches_wire, server_trace_is_parse_of_wire; the chain with "
+                  "tracing inside rawResponder is refuted); a response body without bytes yields exactly one body-end event and a finished trace "
+                  "(empty_body_single_body_end); the model is tied to the Go code "
+                  "by a bounded-exhaustive plus random differential run on every check, which includes exchanges with the real createServer and "
+                  "real HTTP/1.1 round trips through TracingRoundTripper.")
     level_note = ("Trusted: Coq kernel, extraction, OCaml driver, harness; model-to-code correspondence is sampled (all compositions of bodies "
                   "<= 13/15 bytes and of their truncations), not proved. Decompressors are an oracle. The pass-through theorem is about the model's "
                   "wrapper contract; that the Go wrappers meet it is what the differential run checks (identity of error values, bytes, counts, "
-                  "header map).")
+                  "header map). The handler-chain order is modelled by hand (not regenerated from the code) and checked only through the live "
+                  "exchanges of c14.server / c14.observed; ordinary server responses are observed first and the model is run on the observed bytes "
+                  "(a replay of such a case re-runs the tracer on those bytes, not the exchange).")
     technique = ("Coq proof: trace (a ++ b) = trace a ; trace b under a state invariant, induction over the chunk list, then equality of the "
                  "one-shot run with a declarative parser; differential model-vs-Go correspondence")
     go_timeout = 600
@@ -298,6 +342,31 @@ class C14(Prop):
                 pass
         extra = (" [harness: %s]" % ", ".join(tags)) if tags else ""
         return "body tracing: implementation differs from the proved model (= declarative parse of the whole body)" + extra
+
+    # ------------------------------------------------------------------ oracle stage (Go side only)
+    def _oracle(self, queries, label):
+        """queries: [kind, payload...] -> parsed results.  Used for exchanges with the real reference server whose
+        response bytes cannot be predicted (c14.probe): the observation becomes a c14.observed case."""
+        if not queries:
+            return []
+        work = os.path.join(core.BUILD, self.id, "oracle")
+        os.makedirs(work, exist_ok=True)
+        by_tag = {}
+        for i, q in enumerate(queries):
+            by_tag.setdefault(self.kinds[q[0]], []).append(core.sx([q[0], i] + list(q[1:])))
+        res = {}
+        for tag, lines in by_tag.items():
+            cp = os.path.join(work, "%s.%s.cases" % (label, tag))
+            with open(cp, "w") as f:
+                f.write("\n".join(lines) + "\n")
+            out = os.path.join(work, "%s.%s.out" % (label, tag))
+            core.run_go(core.go_test_bin(self, self.packages[tag]), self.packages[tag], cp, out, timeout=300)
+            for line in open(out):
+                line = line.strip()
+                if line:
+                    v = core.parse_sx(line)
+                    res[v[0]] = v[1]
+        return [res.get(i) for i in range(len(queries))]
 
     # ------------------------------------------------------------------ generators
     def generate(self, rng, tier):
@@ -655,6 +724,176 @@ class C14(Prop):
                             rclen = (-1, len(body), 0)[(k // 5) % 3]
                             yield ["c14.rt", 0, hd, [], reader_ops(chunks, ending),
                                    [mode, method, qclen, hm(qh), qchunks], [status, rclen, hm(rh), hm(tr)]]
+
+
+        # 1d. LONG end-stream messages (seeded C13-17: the capture of an end-stream message was capped at 64 KiB).
+        #     Payloads of 64 KiB - 1, 64 KiB, 64 KiB + 1, 100 KiB and 1 MiB from a compact description (length, seed),
+        #     expanded on both sides; uncompressed (Connect 0x02, gRPC-Web 0x80), flagged compressed under the
+        #     identity decompressor, under gzip (stored blocks: the compressed form is longer than 64 KiB too;
+        #     deflated: a short capture that decompresses to the long content), refused (unknown encoding), on the
+        #     request side (no capture); cut inside the prefixes, at the payload start, around the 64 KiB mark of
+        #     the payload, into 32 / 64 KiB reads; through raw / reader / writer / rt / handler.
+        connj = ["application/connect+json", "", "", ""]
+        gweb = ["application/grpc-web+proto", "", "", ""]
+        lead = envelope(0, b"m")
+        P0 = len(lead) + 5
+
+        def long_case(entry, req, hdr, table, flags, payload_pieces, plen, cuts):
+            head = lead + bytes([flags]) + struct.pack(">I", plen)
+            return ["c14.long", entry, req, hdr, table, [head] + payload_pieces, cuts]
+
+        def long_cuts(plen, which):
+            total = P0 + plen
+            return [
+                [],
+                [3, 5],
+                [P0],
+                [P0 + K64 - 1, 1, 1, 1],
+                [P0 + K64],
+                [32768] * (total // 32768),
+                [8, K64] + [K64] * (plen // K64),
+                [P0 - 1, 2, K64 - 2, 1],
+            ][which % 8]
+
+        k = 0
+        for plen in (K64 - 1, K64, K64 + 1, 100 * 1024, 1 << 20):
+            seed_ = 1 + plen % 200
+            variants = [
+                (connj, [], 2, [[plen, seed_]], plen, 0),
+                (gweb, [], 0x80, [[plen, seed_]], plen, 0),
+                (["application/connect+json", "", "identity", ""], [], 3, [[plen, seed_]], plen, 0),
+                (["application/grpc-web+proto", "", "", "x-unknown"], [], 0x81, [[plen, seed_]], plen, 0),
+                (connj, [], 2, [[plen, seed_]], plen, 1),                       # request side: nothing is captured
+            ]
+            if plen <= K64 + 1:
+                # gzip, stored: plen plain bytes -> a little more than plen compressed bytes (explicit in the case)
+                comp = gzip_bytes(pat(plen, seed_), 0)
+                variants.append((["application/connect+json", "", "gzip", ""], [[[comp], [[[plen, seed_]]]]], 3, [comp], len(comp), 0))
+            else:
+                # gzip, deflated: a short capture whose decompressed content is long
+                comp = gzip_bytes(pat(plen, seed_), 6)
+                variants.append((["application/grpc-web+proto", "", "", "gzip"], [[[comp], [[[plen, seed_]]]]], 0x81, [comp], len(comp), 0))
+            big = plen > 100 * 1024
+            for vi, (hdr, table, flags, pieces, paylen, req) in enumerate(variants):
+                if big:
+                    # 1 MiB: uncompressed in one read (raw), gRPC-Web in 64 KiB reads (reader), deflated -> 1 MiB content
+                    whiches = {0: (0,), 1: (6,), 5: (0,)}.get(vi, ())
+                elif plen > K64 + 1:
+                    whiches = (0, 3, 5, 7)
+                elif plen == K64 + 1:
+                    whiches = range(8)
+                else:
+                    whiches = (k % 2, 3, 4 + k % 2, 6 + k % 2)
+                for which in whiches:
+                    k += 1
+                    cuts = long_cuts(paylen, which)
+                    if req:
+                        entries = [0, 1][k % 2:k % 2 + 1]
+                    elif vi < 2 and plen == K64 + 1 and which in (0, 3):
+                        entries = [0, 1, 2, 3, 4]                                # every entry point, every run
+                    elif big:
+                        entries = [(0, 1, 2)[vi % 3]]
+                    else:
+                        entries = [k % 5]
+                    for entry in entries:
+                        yield long_case(entry, req, hdr, table, flags, pieces, paylen, cuts)
+
+        # 1e. the reference server's handler chain (seeded C14-20: tracing installed inside rawResponder): the real
+        #     createServer in reference mode with a tracer, HTTP/1.1 and h2c, asked by a plain client for a RAW response
+        #     (0..3 enveloped messages incl. zero-length ones, end-stream or not, declared length differing from the
+        #     payload's, compressed end-stream; unary bodies) through a unary RPC, a server stream, a gRPC-Web server
+        #     stream; the model predicts the bytes on the wire and the response events of the trace.
+        raw_streams = [
+            [],
+            [[0, -1, b"one"]],
+            [[0, -1, b""]],
+            [[2, -1, b"{}"]],
+            [[0, -1, b"one"], [0, -1, b""], [2, -1, b'{"metadata":{"x-demo":["yes"]}}']],
+            [[1, -1, b"ab"], [0, -1, b""], [0, -1, b"xyz"]],
+            [[0, -1, b""], [0, -1, b""], [0x80, -1, b"grpc-status: 0\r\n"]],
+            [[0, -1, b"abc"], [2, -1, b""]],
+            [[0, 5, b"abc"]],                                   # declared longer than sent: a partial event
+            [[0, 1, b"abc"], [0, -1, b""]],                     # declared shorter: the rest reads as a prefix
+            [[0x7D, -1, long_payload], [0x82, -1, b"{}"]],
+        ]
+        k = 0
+        for h2c in (0, 1):
+            for rpc in (0, 1, 2):
+                for items in raw_streams:
+                    k += 1
+                    hdr = [conn, gweb, connj][k % 3]
+                    yield ["c14.server", h2c, rpc, (0, 200, 0, 500, 404)[k % 5], hdr, [], [1, items]]
+                # compressed end-stream content: flagged (decompressed), unflagged (as it is), refused
+                yield ["c14.server", h2c, rpc, 0, gzhdr, gztab, [1, [[0, -1, b"m"], [3, -1, gzc]]]]
+                yield ["c14.server", h2c, rpc, 200, gzhdr, gztab, [1, [[2, -1, gzc]]]]
+                yield ["c14.server", h2c, rpc, 200, gzhdr, [], [1, [[0, -1, b""], [3, -1, b"not gzip"]]]]
+                for body in (b"", b"\x08\x01", b"{}", long_payload + long_payload):
+                    for hdr in (["application/proto", "", "", ""], ["application/json", "", "", ""], conn, ["", "", "", ""]):
+                        k += 1
+                        if (k + rpc) % 2:
+                            yield ["c14.server", h2c, rpc, (0, 200, 418)[k % 3], hdr, [], [0, body]]
+        #     ... and for ORDINARY responses (their bytes echo the request's headers in map order, so they are
+        #     observed first - c14.probe, Go side only - and the observation is the case: the model is run on the
+        #     bytes the plain client received)
+        probes = []
+        for h2c in (0, 1):
+            for rpc in (0, 1, 2):
+                for n, payload in ((1, b"hello"), (0, b"boom"), (3, b""), (2, bytes(range(40)))):
+                    if rpc == 0 and n > 1:
+                        continue
+                    probes.append(["c14.probe", h2c, rpc, payload, n])
+        for q, r in zip(probes, self._oracle(probes, "probe")):
+            if r is None or len(r) != 5 or not isinstance(r[0], list):
+                # the exchange failed: let the differential run say so (the Go side repeats the tag, the model cannot)
+                yield ["c14.observed", conn, [], 0, b"", 0, [b"probe-failed", core.sx(q).encode()[:120]]]
+                continue
+            hdr, status, body, tstatus, events = r
+            yield ["c14.observed", hdr, [], status, body, tstatus, events]
+
+        # 1f. responses WITHOUT a body behind TracingRoundTripper (seeded C16-12: http.NoBody was not wrapped, so the
+        #     body-end event never came and the trace was never completed): the scripted transport returns http.NoBody
+        #     (kind 1) or an empty reader of its own (kind 3); and REAL exchanges over loopback (kind 2: HTTP/1.1,
+        #     net/http's transport underneath) answered with Content-Length: 0, 204, 304, to HEAD - and, for
+        #     comparison, with bodies of known and unknown length.
+        nb_hdr_sets = [rh for rh in (
+            {"Content-Type": ["application/connect+proto"], "X-Multi": ["a", "b"]},
+            {"Content-Type": ["application/grpc-web+proto"], "Grpc-Accept-Encoding": ["gzip,br"]},
+            {"Content-Type": ["application/json"], "Vary": ["Origin", "Accept"]},
+            {},
+        )]
+        k = 0
+        for kind_ in (1, 3):
+            for status in (200, 204, 304, 404):
+                for rclen in (0, -1):
+                    for rh in nb_hdr_sets:
+                        for nclose in (0, 1, 2):
+                            k += 1
+                            ops = [[0, b"", IOEOF, (0, 3, 9)[k % 3]]] + [[1, 0]] * nclose
+                            mode, method, qclen, qclh, qchunks = [
+                                (0, "GET", 0, None, []), (2, "GET", 0, None, []), (0, "HEAD", 0, None, []),
+                                (0, "POST", len(qbody), None, [qbody]), (2, "DELETE", 0, None, []),
+                            ][k % 5]
+                            qh = dict(base_req)
+                            qh.update(req_sets[k % len(req_sets)])
+                            yield ["c14.rt", 0, conn, [], ops, [mode, method, qclen, hm(qh), qchunks], [status, rclen, hm(rh), [], kind_]]
+        live_bodies = [[], [envelope(0, b"abc") + envelope(2, b"{}")], [envelope(0, b"hello")[:4], envelope(0, b"hello")[4:] + envelope(0x80, b"grpc-status: 0\r\n")],
+                       [b"plain ", b"text"]]
+        for method in ("GET", "HEAD", "POST", "DELETE"):
+            for status in (200, 204, 304, 404):
+                for chunks in live_bodies:
+                    nobody = method == "HEAD" or status in (204, 304)
+                    if nobody and chunks:
+                        continue
+                    for known in (0, 1):
+                        for rh in nb_hdr_sets[:3] if not chunks else nb_hdr_sets[:2]:
+                            k += 1
+                            n = sum(len(c_) for c_ in chunks)
+                            ops = [[0, c_, IONONE, 0] for c_ in chunks[:-1]] + [[0, chunks[-1] if chunks else b"", IOEOF, 0]] + [[1, 0]] * (k % 3)
+                            qh = dict(base_req)
+                            qh.update(req_sets[k % len(req_sets)])
+                            qchunks = [qbody] if method == "POST" and k % 2 else []
+                            yield ["c14.rt", 0, conn, [], ops, [0, method, len(qbody) if qchunks else 0, hm(qh), qchunks],
+                                   [status, n if known else -1, hm(rh), [], 2]]
 
         # 2. random larger streams, random chunkings, through all entry points
         n_rand = 80000 if quick else 500000
